@@ -399,7 +399,7 @@ def run(ctx):
     ctx.extra('realtime_in_sysex_cases', r)
     n += r
     from .. import coldstart
-    n += coldstart.phase(ctx, cold_jobs(), 'concatenation parses back', offset=7)
+    n += coldstart.phase(ctx, cold_jobs() + coldstart.parser_overlap_jobs(), 'concatenation parses back', offset=7)
     ctx.count('cases', n)
     ctx.put_sample({'kind': 'rt', 'data': [1, 2, 3], 'inserts': [[2, 0xF8], [4, 0xFF]]})
 
